@@ -8,6 +8,7 @@ import (
 	"fmt"
 	"hash/fnv"
 	"os"
+	"os/exec"
 	"path/filepath"
 	"runtime"
 	"strconv"
@@ -39,19 +40,20 @@ type pendingCall struct {
 }
 
 type scen struct {
-	sc     Scenario
-	root   string
-	out    *bufio.Writer
-	names  *names
-	sh     *shadow
-	ws     map[string]*watcher
-	inoTok map[uint64]string // inode number -> token
-	nIno   int
-	fds    map[string]*os.File
-	calls  map[string]*pendingCall
-	dirty  bool // stuck goroutines left behind: the worker must be restarted
-	base   resources
-	chmodT map[string]bool
+	sc       Scenario
+	root     string
+	out      *bufio.Writer
+	names    *names
+	sh       *shadow
+	ws       map[string]*watcher
+	inoTok   map[uint64]string // inode number -> token
+	nIno     int
+	fds      map[string]*os.File
+	calls    map[string]*pendingCall
+	dirty    bool // stuck goroutines left behind: the worker must be restarted
+	base     resources
+	chmodT   map[string]bool
+	children []*exec.Cmd // started by "spawn" steps
 }
 
 type resources struct {
@@ -150,6 +152,10 @@ func runScenario(sc Scenario, out *bufio.Writer, tmp string) (dirty bool, err er
 		"maxq": readInt("/proc/sys/fs/inotify/max_queued_events"), "defcap": fsnotify.VerifDefaultBufferSize()})
 	for i := range sc.Steps {
 		s.exec(&sc.Steps[i])
+	}
+	for _, c := range s.children {
+		c.Process.Kill()
+		c.Wait()
 	}
 	// Leave nothing behind: close watchers that the scenario left open.
 	for _, f := range s.fds {
@@ -718,6 +724,15 @@ func (s *scen) exec(st *Step) {
 	case "recurse":
 		fsnotify.VerifSetRecurse(st.Recurse)
 		s.emit(J{"k": "recurse", "on": st.Recurse})
+	case "spawn":
+		// a child process started while Watchers exist: whatever descriptors it inherits outlive Close
+		c := exec.Command("/bin/sleep", "600")
+		c.SysProcAttr = &syscall.SysProcAttr{Pdeathsig: syscall.SIGKILL}
+		err := c.Start()
+		if err == nil {
+			s.children = append(s.children, c)
+		}
+		s.emit(J{"k": "spawn", "ok": err == nil})
 	case "shadowmask":
 		if st.Ops != nil {
 			s.sh.extra = uint32(*st.Ops)
@@ -1431,7 +1446,23 @@ func (s *scen) stepObs(st *Step) {
 		pend = append(pend, t)
 	}
 	line["pending"] = pend
+	line["childifds"] = s.childInotifyFds()
 	s.emit(line)
+}
+
+// childInotifyFds counts the inotify descriptors held by the child processes the scenario spawned.
+func (s *scen) childInotifyFds() int {
+	n := 0
+	for _, c := range s.children {
+		dir := "/proc/" + strconv.Itoa(c.Process.Pid) + "/fd"
+		es, _ := os.ReadDir(dir)
+		for _, e := range es {
+			if l, err := os.Readlink(dir + "/" + e.Name()); err == nil && l == "anon_inode:inotify" {
+				n++
+			}
+		}
+	}
+	return n
 }
 
 // marks parses the kernel's view of the instance from /proc/self/fdinfo.
